@@ -22,6 +22,7 @@ RULE = ('programs = the standard library of each reference interpreter 3.6-3.13 
 ASSUMPTIONS = ['"valid program" = CPython V tokenizes and compiles it (the pure-Python tokenize module alone accepts non-programs)',
                'CPython tokenize is authoritative for columns only on ASCII line prefixes']
 SIG_SKIP = ('COMMENT', 'NL', 'ENCODING')
+_prev = {}
 _WS_BACKSLASH_LINE = re.compile(r'^[ \t\f]+\\\r?\n', re.M)
 
 
@@ -178,6 +179,18 @@ def judge(ctx, v, text, ref, origin):
         return
     ctx.count('evaluations')
     ctx.count('evaluations:' + v)
+    prev = _prev.get('text')
+    _prev['text'] = text
+    if prev is not None and (len(text) + len(prev)) % 10 == 0:
+        # what was tokenized before -- and abandoned half-way -- must not matter
+        ctx.count('prior_abandoned_streams')
+        try:
+            it = tokenize(prev, version_info=parse_version_string(v))
+            for _ in range(len(prev) % 9 + 1):
+                next(it)
+            del it
+        except Exception:
+            pass
     try:
         pt = list(tokenize(text, version_info=parse_version_string(v)))
     except Exception as e:
